@@ -22,7 +22,7 @@ EXHAUSTIVE = {"quick": True, "thorough": True}
 RULE = ("Grid (complete): starttls argument {False,True} x server STARTTLS support {no,yes} x SASL announcement variant "
         "(same pre/post; pre PLAIN -> post LOGIN only; pre none -> post PLAIN; pre PLAIN -> post none; no SASL capability) x "
         "authmech {None, PLAIN, LOGIN, OAUTHBEARER, unknown} x one fault (or none) at a handshake step: greeting "
-        "{refuse, BYE, NO, silence, close, garbage, missing OK}, STARTTLS {NO, BYE, silence, close}, TLS handshake "
+        "{refuse, BYE, NO, silence, close, garbage, missing OK}, STARTTLS {NO, BYE, silence, close, OK followed by an injected plaintext capability block}, TLS handshake "
         "{SSLError, cert error, timeout, EOF}, post-TLS capabilities {BYE, NO, silence, close, garbage, missing OK}, "
         "AUTHENTICATE {NO, BYE, silence, close}, verdict {NO, BYE, wrong password}. Every cell runs the history: the 8 "
         "script methods before connect; connect; the 8 script methods + capability; a second connect on the same object "
@@ -47,7 +47,7 @@ SASL_VARIANTS = [
 AUTHMECHS = [None, "PLAIN", "LOGIN", "OAUTHBEARER", "X-UNKNOWN"]
 FAULTS = [None] + \
     [("greeting", k) for k in ("refuse", "bye", "no", "silent", "close", "garbage", "nook")] + \
-    [("starttls", k) for k in ("NO", "BYE", "silent", "close")] + \
+    [("starttls", k) for k in ("NO", "BYE", "silent", "close", "inject")] + \
     [("tls", k) for k in ("sslerror", "certerror", "timeout", "eof")] + \
     [("postcaps", k) for k in ("bye", "no", "silent", "close", "garbage", "nook")] + \
     [("authenticate", k) for k in ("NO", "BYE", "silent", "close")] + \
@@ -136,6 +136,9 @@ class Hooks:
         verb = dec if isinstance(dec, str) else dec.verb
         if verb == b"STARTTLS" and self._is("starttls"):
             self.fired = True
+            if self.fault[1] == "inject":
+                self.world.server.inject_after_starttls = True
+                return None
             return KIND[self.fault[1]]
         if verb == b"AUTHENTICATE" and self._is("authenticate"):
             self.fired = True
@@ -185,7 +188,8 @@ def check_after_call(world, srv, client, meth, args, kw, out, was_auth, starttls
         if "before authentication" in v[2]:
             return Failure(PROP, "C10.script-before-auth", "%s%r: %s (bytes %r) on a connection without a successful AUTHENTICATE" % (
                 meth, args, v[2], v[3]), {"call": meth})
-        if "between STARTTLS OK and the TLS handshake" in v[2] or "TLS handshake started without" in v[2]:
+        if ("between STARTTLS OK and the TLS handshake" in v[2] or "TLS handshake started without" in v[2]) and \
+                (meth == "connect" or b"AUTHENTICATE" in v[3].upper()):
             return Failure(PROP, "C10.creds-before-tls", "%s%r: %s %r" % (meth, args, v[2], v[3]), {"call": meth})
     recs = [r for r in srv.log if r.call_id == cid]
     if meth in SCRIPT_METHODS and not was_auth:
@@ -306,6 +310,7 @@ def run(ch, config, res):
                 elif kind == "connect":
                     hooks.fault = arg["fault"]
                     hooks.fired = False
+                    srv.inject_after_starttls = False
                     srv.cfg.users = {"user": "password"}
                     kw = {"starttls": bool(st_arg), "authmech": AUTHMECHS[am]}
                     o, failure = do(client, "connect", ("user", "password"), kw)
